@@ -19,7 +19,6 @@ mod sut;
 
 use model::{Case, Expect, FaultKind, HANG_CONFIRMED, Interp, K_HANG, Op, Progress};
 use proptest::prelude::*;
-use std::cell::Cell;
 use std::collections::HashMap;
 use std::sync::atomic::{AtomicU64, Ordering};
 use std::sync::{Arc, Mutex};
@@ -49,11 +48,9 @@ static SLOW_RERUNS: AtomicU64 = AtomicU64::new(0);
 /// failures of cases that hung without the tracker model predicting it (case hash -> key, msg)
 static UNPREDICTED: Mutex<Option<HashMap<u64, (String, String)>>> = Mutex::new(None);
 
-thread_local! {
-    /// after an unpredicted hang this shard only shrinks; every further real
-    /// execution would cost minutes, so the shard stops executing cases
-    static SHARD_STOPPED: Cell<bool> = const { Cell::new(false) };
-}
+/// after an unpredicted hang has been confirmed (and is reported), every further real execution
+/// may cost minutes and leaves a stuck thread behind, so no shard executes further cases
+static RUN_STOPPED: std::sync::atomic::AtomicBool = std::sync::atomic::AtomicBool::new(false);
 
 enum Attempt {
     Done(Verdict),
@@ -61,7 +58,7 @@ enum Attempt {
     Setup(String),
     /// no completion within the limit; what the case thread was doing, and whether the
     /// kernel shows it blocked (see `thread_blocked`)
-    Hang(Progress, Option<bool>),
+    Hang(Progress, Option<ThreadState>),
 }
 
 fn attempt(case: &Case, known: &Known, limit: Duration) -> Attempt {
@@ -84,16 +81,28 @@ fn attempt(case: &Case, known: &Known, limit: Duration) -> Attempt {
         Some(Err(p)) => Attempt::Panic(p),
         None => {
             let p = progress.lock().map(|g| g.clone()).unwrap_or_default();
-            let blocked = thread_blocked(p.tid);
+            let blocked = thread_blocked(p.tid, limit);
             Attempt::Hang(p, blocked)
         }
     }
 }
 
-/// Is the case thread blocked (sleeping, no CPU time consumed over two seconds)?
-/// `Some(false)`: it is running, waiting for the disk, or still making progress —
-/// a slow machine, not a call that never returns. `None`: /proc is not readable.
-fn thread_blocked(tid: i32) -> Option<bool> {
+/// What the kernel shows for the case thread after a timeout, sampled twice two seconds apart.
+#[derive(Clone, Copy, Debug, PartialEq, Eq)]
+enum ThreadState {
+    /// sleeping, no CPU time consumed between the samples
+    Blocked,
+    /// runnable in both samples, consuming CPU time between them, and `SPIN_CPU_SECS` of CPU
+    /// time consumed by the thread since the history started: a loop that does not end
+    Spinning,
+    /// waiting for the disk, or making some progress: a slow machine
+    Other,
+}
+
+/// CPU seconds of the case thread beyond which a history that is stuck in one call counts as spinning.
+const SPIN_CPU_SECS: u64 = 10;
+
+fn thread_blocked(tid: i32, limit: Duration) -> Option<ThreadState> {
     fn sample(tid: i32) -> Option<(char, u64)> {
         let txt = std::fs::read_to_string(format!("/proc/self/task/{tid}/stat")).ok()?;
         let rest = &txt[txt.rfind(')')? + 1..];
@@ -106,10 +115,21 @@ fn thread_blocked(tid: i32) -> Option<bool> {
     if tid <= 0 {
         return None;
     }
+    // SAFETY: sysconf has no preconditions.
+    let hz = u64::try_from(unsafe { libc::sysconf(libc::_SC_CLK_TCK) }).ok().filter(|h| *h > 0).unwrap_or(100);
     let a = sample(tid)?;
     std::thread::sleep(Duration::from_secs(2));
     let b = sample(tid)?;
-    Some(a.0 == 'S' && b.0 == 'S' && a.1 == b.1)
+    if a.0 == 'S' && b.0 == 'S' && a.1 == b.1 {
+        return Some(ThreadState::Blocked);
+    }
+    // CPU time of the thread itself does not depend on how loaded the machine is: a history of
+    // this check costs milliseconds of it (the largest values: about a second)
+    let _ = limit;
+    if a.0 == 'R' && b.0 == 'R' && b.1 > a.1 && b.1 >= hz * SPIN_CPU_SECS {
+        return Some(ThreadState::Spinning);
+    }
+    Some(ThreadState::Other)
 }
 
 fn is_cache_call(what: &str) -> bool {
@@ -123,7 +143,7 @@ fn supervised(case: &Case, known: &Known) -> Verdict {
             return Verdict::fail(k.clone(), m.clone());
         }
     }
-    if SHARD_STOPPED.with(Cell::get) {
+    if RUN_STOPPED.load(Ordering::SeqCst) {
         return Verdict::pass().class("not-executed-after-unpredicted-hang");
     }
     let (t1, t2) = limits();
@@ -148,6 +168,7 @@ fn supervised(case: &Case, known: &Known) -> Verdict {
         return infra(format!("case thread did not start within {t1:?}"));
     }
     // second, fresh execution with the long limit
+    let mut spinning = false;
     let second = match attempt(case, known, t2) {
         Attempt::Done(v) => {
             SLOW_RERUNS.fetch_add(1, Ordering::Relaxed);
@@ -155,8 +176,12 @@ fn supervised(case: &Case, known: &Known) -> Verdict {
         }
         Attempt::Panic(p) => return panic_verdict(p),
         Attempt::Setup(e) => return infra(format!("re-run after a timeout could not be set up: {e}")),
-        Attempt::Hang(p, Some(false)) => {
+        Attempt::Hang(p, Some(ThreadState::Other)) => {
             return infra(format!("case did not complete within {t1:?} and {t2:?}, but its thread is running or waiting for the disk (op#{} {}): machine too slow", p.step, p.what));
+        }
+        Attempt::Hang(p, Some(ThreadState::Spinning)) => {
+            spinning = true;
+            p
         }
         Attempt::Hang(p, _) => p,
     };
@@ -170,6 +195,17 @@ fn supervised(case: &Case, known: &Known) -> Verdict {
         "op#{} {}({}) did not return within {t1:?}, and again not within {t2:?} on a fresh execution of the same history",
         second.step, second.what, second.detail
     );
+    if spinning {
+        // the thread has consumed SPIN_CPU_SECS of CPU time and is still runnable inside one cache
+        // call, in two executions at the same operation: a loop that does not end
+        let key = format!("C12:multi:{}-never-returns:spinning", second.what);
+        let msg = format!("{msg}; the thread is runnable and has consumed more than {SPIN_CPU_SECS} s of CPU time inside the call");
+        if let Ok(mut g) = UNPREDICTED.lock() {
+            g.get_or_insert_with(HashMap::new).insert(hash, (key.clone(), msg.clone()));
+        }
+        RUN_STOPPED.store(true, Ordering::SeqCst);
+        return Verdict::fail(key, msg);
+    }
     if second.predicted_hang && second.what == "get" {
         HANG_CONFIRMED.store(true, Ordering::SeqCst);
         return Verdict::fail(K_HANG, msg);
@@ -178,7 +214,7 @@ fn supervised(case: &Case, known: &Known) -> Verdict {
     if let Ok(mut g) = UNPREDICTED.lock() {
         g.get_or_insert_with(HashMap::new).insert(hash, (key.clone(), msg.clone()));
     }
-    SHARD_STOPPED.with(|c| c.set(true));
+    RUN_STOPPED.store(true, Ordering::SeqCst);
     Verdict::fail(key, msg)
 }
 
